@@ -332,6 +332,10 @@ func hasProp(props []string, p string) bool {
 
 func runCheck(prop, repo, verif, tier, only string, updateBaseline, verbose, noEvidence bool) int {
 	t0 := time.Now()
+	if len(prop) != 3 || prop[0] != 'C' || prop[1] < '0' || prop[1] > '9' || prop[2] < '0' || prop[2] > '9' {
+		fmt.Fprintf(os.Stderr, "usage: govc check <property id C01..C20> [flags]\n")
+		return 2
+	}
 	seed, _ := strconv.Atoi(envOr("VERIF_SEED", "0"))
 	e, err := loadEngine(repo, verif)
 	if err != nil {
